@@ -436,4 +436,69 @@ theorem decTags_encTags (t : Tags) (h : ∀ x ∈ t, isScalar x.2 = true) : decT
   have hd := decJs_encJs [] (t.map (·.2)) (by rw [cfgRefsL_scalar _ hs]; intro m hm; cases hm)
   simp only [encTags, decTags, hd, zip_fst_snd]
 
+/-! ### the tags of the task itself win -/
+
+theorem getTag_setTag_same : ∀ (t : Tags) (k : List Nat) (v : Val), getTag (setTag t k v) k = some v
+  | [], k, v => by simp [setTag, getTag]
+  | (k', v') :: r, k, v => by
+    by_cases h : k = k'
+    · simp [setTag, getTag, h]
+    · simp only [setTag, h, if_false, getTag]
+      exact getTag_setTag_same r k v
+
+theorem getTag_setTag_other : ∀ (t : Tags) (k k' : List Nat) (v : Val), k ≠ k' → getTag (setTag t k' v) k = getTag t k
+  | [], k, k', v, h => by simp [setTag, getTag, h]
+  | (k'', v'') :: r, k, k', v, h => by
+    by_cases h1 : k' = k''
+    · subst h1
+      simp [setTag, getTag, h]
+    · simp only [setTag, h1, if_false, getTag]
+      by_cases h2 : k = k''
+      · simp [h2]
+      · simp only [h2, if_false]
+        exact getTag_setTag_other r k k' v h
+
+theorem getTag_updTags_not_mem : ∀ (new acc : Tags) (k : List Nat), k ∉ new.map (·.1) → getTag (updTags acc new) k = getTag acc k
+  | [], acc, k, _ => rfl
+  | (k', v') :: r, acc, k, h => by
+    simp only [List.map_cons, List.mem_cons, not_or] at h
+    simp only [updTags]
+    rw [getTag_updTags_not_mem r _ k h.2, getTag_setTag_other acc k k' v' h.1]
+
+/-- `dict.update` with a dictionary: afterwards every key of it has its value -/
+theorem getTag_updTags_of_mem : ∀ (new acc : Tags) (k : List Nat) (v : Val), (new.map (·.1)).Nodup → (k, v) ∈ new →
+    getTag (updTags acc new) k = some v
+  | [], _, _, _, _, h => by cases h
+  | (k', v') :: r, acc, k, v, hnd, h => by
+    simp only [List.map_cons, List.nodup_cons] at hnd
+    simp only [updTags]
+    rcases List.mem_cons.1 h with e | e
+    · obtain ⟨rfl, rfl⟩ := Prod.mk.inj e
+      rw [getTag_updTags_not_mem r _ k hnd.1, getTag_setTag_same]
+    · exact getTag_updTags_of_mem r _ k v hnd.2 e
+
+theorem succTags_wf (g : Graph) (hwf : WF g) : ∀ n, n < g.size → ∀ m ∈ succTags g n, m < g.size := by
+  intro n hn m hm
+  apply hwf n hn m
+  simp only [succTags, succAll, List.mem_append] at hm ⊢
+  rcases hm with ((h | h) | h) | h
+  · exact Or.inl (Or.inl (Or.inl h))
+  · exact Or.inl (Or.inr h)
+  · exact Or.inr h
+  · exact Or.inl (Or.inl (Or.inr h))
+
+theorem tagOrder_last (g : Graph) (root : Nat) (hwf : WF g) (hr : root < g.size) :
+    ∃ before, tagOrder g root = before ++ [root] := by
+  obtain ⟨mid, seen', e⟩ :=
+    dfs_root_last (succTags g) g.size (succTags_wf g hwf) (g.size + 1) root [] [] hr (unseen_nil_lt g.size) (by simp)
+  refine ⟨exitsOf mid, ?_⟩
+  simp only [tagOrder, e, List.nil_append, exitsOf_wrap]
+
+theorem collectTags_own (g : Graph) (tg : Nat → Tags) (root : Nat) (hwf : WF g) (hr : root < g.size)
+    (hnd : ((tg root).map (·.1)).Nodup) (k : List Nat) (v : Val) (h : (k, v) ∈ tg root) :
+    getTag (collectTags g tg root) k = some v := by
+  obtain ⟨before, e⟩ := tagOrder_last g root hwf hr
+  simp only [collectTags, e, List.foldl_append, List.foldl_cons, List.foldl_nil]
+  exact getTag_updTags_of_mem _ _ k v hnd h
+
 end XpmVerif.Serial
